@@ -79,7 +79,7 @@ func runC22(c *Ctx) {
 		{Key: "$p1", Domain: dtls},
 		{Key: "$recv.connectionState.Load()", Domain: pcs},
 	}
-	t := absint.Tabulate(absint.Config{P: c.P, Dims: dims,
+	t := absint.Tabulate(absint.Config{P: c.P, Dims: dims, Inline: c22PureHelper, Pure: c22PureHelper,
 		OnCall: func(in *absint.Interp, st *absint.State, call *ast.CallExpr, fn *types.Func, recv absint.Val, args []absint.Val) (absint.Val, bool) {
 			if fn == onChange.Obj && len(args) == 1 {
 				st.Emit("notify(" + args[0].String() + ")")
@@ -252,7 +252,7 @@ func c22R3(c *Ctx, upd *core.FuncInfo) {
 		r.Undecided("C22.R3", "createICETransport|handler-literal", pos, "state-change handler literal not found")
 		return
 	}
-	t := absint.TabulateLit(absint.Config{P: c.P, Dims: []absint.Dim{{Key: "$p0", Domain: its}},
+	t := absint.TabulateLit(absint.Config{P: c.P, Dims: []absint.Dim{{Key: "$p0", Domain: its}}, Inline: c22PureHelper, Pure: c22PureHelper,
 		OnCall: func(in *absint.Interp, st *absint.State, call *ast.CallExpr, fn *types.Func, recv absint.Val, args []absint.Val) (absint.Val, bool) {
 			switch fn {
 			case onICE.Obj:
@@ -281,4 +281,34 @@ func c22R3(c *Ctx, upd *core.FuncInfo) {
 			row.Outcomes[0].Trace[0] == "ice("+want+")" && row.Outcomes[0].Trace[1] == "update("+want+")"
 		r.Check(ok, "C22.R3", key, pos, "maps to "+want+" and updates the aggregate with it", "expected ice("+want+") then update("+want+"), got "+outcomesStr(row.Outcomes))
 	}
+}
+
+// c22PureHelper: same-module helpers whose parameters and results are all scalars (bool / integer / string kinds,
+// i.e. the state enums) are interpreted in place, so that extracting the aggregate or the state mapping into a pure
+// function does not turn the table into unknowns.
+func c22PureHelper(fn *types.Func) bool {
+	if fn.Pkg() == nil || !strings.HasPrefix(fn.Pkg().Path(), core.ModPath) {
+		return false
+	}
+	sig, ok := fn.Type().(*types.Signature)
+	if !ok {
+		return false
+	}
+	scalar := func(t types.Type) bool {
+		b, ok := t.Underlying().(*types.Basic)
+		return ok && b.Info()&(types.IsBoolean|types.IsInteger|types.IsString) != 0
+	}
+	n := 0
+	for i := 0; i < sig.Params().Len(); i++ {
+		if !scalar(sig.Params().At(i).Type()) {
+			return false
+		}
+		n++
+	}
+	for i := 0; i < sig.Results().Len(); i++ {
+		if !scalar(sig.Results().At(i).Type()) {
+			return false
+		}
+	}
+	return n > 0 && sig.Results().Len() > 0
 }
